@@ -547,12 +547,12 @@ RELAY_CONTROLS = [("RelayLoopMC_ctl_noReset.cfg", "BackoffGrows", "back-off not 
                   ("RelayLoopMC_ctl_ignoreStop.cfg", "NoAttemptAfterStop", "loop ignores the ended context"),
                   ("RelayLoopMC_ctl_routeAll.cfg", "RoutesOnlyDialed", "routes for every peer"),
                   ("RelayLoopMC_ctl_slowRouter.cfg", "RoutesKept", "router period longer than the address TTL")]
-RELAY_QUICK = ["RelayLoopMC_quick.cfg", "RelayLoopMC_unknown.cfg", "RelayLoopMC_live.cfg"]
+RELAY_QUICK = ["RelayLoopMC_quick.cfg"]
 RELAY_THOROUGH = ["RelayLoopMC_thorough.cfg", "RelayLoopMC_unknown.cfg", "RelayLoopMC_live.cfg"]
 QUICK_MC = ["P2PSenderMC_quick.cfg", "P2PSenderMC_hyst.cfg", "P2PSenderMC_time.cfg", "P2PSenderMC_proto.cfg", "P2PSenderMC_gater.cfg",
             "P2PSenderMC_live.cfg"]
 THOROUGH_MC = ["P2PSenderMC_stream.cfg", "P2PSenderMC_quick2.cfg", "P2PSenderMC_hyst6.cfg", "P2PSenderMC_hyst_thorough.cfg",
-               "P2PSenderMC_time_thorough.cfg", "P2PSenderMC_time2.cfg", "P2PSenderMC_proto.cfg", "P2PSenderMC_gater.cfg", "P2PSenderMC_live.cfg"]
+               "P2PSenderMC_time_thorough.cfg", "P2PSenderMC_proto.cfg", "P2PSenderMC_gater.cfg", "P2PSenderMC_live.cfg"]
 
 
 def design_check(o, tier, seed):
@@ -562,11 +562,17 @@ def design_check(o, tier, seed):
     from concurrent.futures import ThreadPoolExecutor
     thorough = tier == "thorough"
     mains = THOROUGH_MC if thorough else QUICK_MC
-    n = 600 if thorough else 150
+    n = 600 if thorough else 110
     gens = [("P2PSenderGen", "P2PSenderGen.cfg", dict(simulate="num=%d" % n, depth=300, seed=seed, workers=1)),
             ("P2PSenderGen", "P2PSenderGen_short.cfg", dict(simulate="num=%d" % n, depth=300, seed=seed + 1000, workers=1))]
     controls, fine_bad, fine_ok = CONTROLS, FINE_BAD, FINE_OK
     rmains, rcontrols = (RELAY_THOROUGH if thorough else RELAY_QUICK), RELAY_CONTROLS
+    if not thorough:      # quick tier: one control per invariant (every JVM start counts)
+        seen_inv = set()
+        controls = [c for c in CONTROLS if not (c[1] in seen_inv or seen_inv.add(c[1]))]
+        seen_inv = set()
+        rcontrols = [c for c in RELAY_CONTROLS if not (c[1] in seen_inv or seen_inv.add(c[1]))]
+        fine_bad, fine_ok = FINE_BAD[:1], FINE_OK[:1]
     if os.environ.get("VERIF_P2PSENDER_NOMC"):      # mutation experiments: the design check does not depend on the tree
         mains, controls, fine_bad, fine_ok, rmains, rcontrols = [], [], [], [], [], []
     jobs = list(gens)
@@ -637,15 +643,15 @@ def stage(o, tier, seed):
     hists, join_design = design_check(o, tier, seed)
     r = vlib.rng(seed, "p2psender-gen")
     r.shuffle(hists)
-    hists = hists[:2500 if thorough else 300]
+    hists = hists[:2500 if thorough else 240]
     gen = [from_hist(h) for h in hists]
-    rnd = random_schedules(seed, 2000 if thorough else 220, 800 if thorough else 100, 600 if thorough else 60, thorough)
+    rnd = random_schedules(seed, 2000 if thorough else 180, 800 if thorough else 90, 600 if thorough else 50, thorough)
     o.extra["p2psender_histories_by_tlc"] = len(gen)
     if os.environ.get("VERIF_P2PSENDER_ONLY") == "relay":      # mutation experiments on relay.go / expbackoff
         gen, rnd = gen[:5], rnd[:5]
     vlib.conformance(o, FAMILY, TRACE, TCFG, PKG, gen, tag="p2pgen", chunk=120, exec_timeout=900, tv_timeout=900)
     vlib.conformance(o, FAMILY, TRACE, TCFG, PKG, rnd, tag="p2prnd", chunk=120, exec_timeout=900, tv_timeout=900)
-    rel = relay_schedules(seed, 700 if thorough else 110)
+    rel = relay_schedules(seed, 700 if thorough else 90)
     vlib.conformance(o, FAMILY, "RelayLoopTrace", "RelayLoopTrace.cfg", PKG, rel, test="TestRelay", tag="p2prelay", chunk=60,
                      exec_timeout=900, tv_timeout=900)
     if not os.environ.get("VERIF_P2PSENDER_NOPROBE"):
@@ -711,7 +717,7 @@ def main(tier="quick", seed=1, pid="GP2PSENDER"):
 def replay(path):
     rp = json.load(open(path))
     o = vlib.Outcome(rp.get("property", "GP2PSENDER"), "quick", 0)
-    vlib.conformance(o, FAMILY, rp["trace_module"], rp["trace_cfg"], rp["pkg"], [rp["schedule"]], tag="replay")
+    vlib.conformance(o, FAMILY, rp["trace_module"], rp["trace_cfg"], rp["pkg"], [rp["schedule"]], test=rp.get("test", "TestExec"), tag="replay")
     for p, t in o.violations:
         log("replay: " + t)
     return 1 if o.violations else 0
